@@ -55,6 +55,7 @@ type Spec struct {
 	Regions     []lift.Region `json:"regions"`
 	Stubs       []StubSpec    `json:"stubs"`
 	DecSegs     bool          `json:"dec_segs"`
+	LockRules   []sym.LockRule `json:"lock_rules"`
 	PruneIf     bool          `json:"prune_branches"`
 	MaxSymLen   int           `json:"max_sym_len"`
 	Runs        []RunSpec     `json:"runs"`
@@ -437,6 +438,7 @@ func runInstance(ld *sym.Loaded, spec *Spec, rs *RunSpec, args []int64, known ma
 	e.Known = known
 	e.S.ShareOn = rs.Shares
 	e.DecSegs = spec.DecSegs
+	e.LockRules = spec.LockRules
 	e.PruneIf = spec.PruneIf || rs.PruneIf
 	budget := 300
 	if rs.ExecBudgetS > 0 {
@@ -763,7 +765,7 @@ func installStubs(e *sym.Exec, spec *Spec) {
 		stubsCopy := spec.Stubs
 		e.SetUserStub(func(ex *sym.Exec, st *sym.State, fn *ssa.Function, args []sym.Val, where string) (sym.Val, bool) {
 			for _, sp := range stubsCopy {
-				if fn.Name() == sp.Func && (fn.Pkg == ex.Pkg || fn.Pkg == nil) {
+				if (fn.Name() == sp.Func && (fn.Pkg == ex.Pkg || fn.Pkg == nil)) || (strings.Contains(sp.Func, ".") && fn.String() == sp.Func) {
 					if sp.Log {
 						ex.LogCall(st, fn, args)
 					}
@@ -776,6 +778,10 @@ func installStubs(e *sym.Exec, spec *Spec) {
 					if sp.Returns == "float-by-arg" {
 						// a parsed number: one symbolic value per distinct (concrete) text argument
 						return ex.FloatByArg(sp.Input, args[0]), true
+					}
+					if sp.Returns == "bytes-by-arg" {
+						// file content: a one-byte slice whose byte is a symbol named after the (concrete) path, nil error
+						return ex.BytesByArg(st, sp.Input, args[0]), true
 					}
 					if sp.Returns == "bool-nil" {
 						// (nondeterministic bool, nil error), a fresh bool per call
